@@ -270,9 +270,9 @@ Proof.
   - unfold in_contract, up in *. destruct o, (p_db (s_proc y)); cbn in *; congruence.
 Qed.
 
-Lemma plan_good_update y b : WF y -> plan_good y (OUpdate b).
+Lemma plan_good_update y gp b : WF y -> plan_good y (OUpdate gp b).
 Proof.
-  intros H. destruct (in_contract (OUpdate b) (s_proc y)) eqn:Hc; [|now apply plan_good_skip].
+  intros H. destruct (in_contract (OUpdate gp b) (s_proc y)) eqn:Hc; [|now apply plan_good_skip].
   unfold in_contract in Hc. destruct (p_db (s_proc y)) as [d|] eqn:Hd; [clear Hc|discriminate Hc].
   destruct (wf_up_dur_state y d H Hd) as (Hst & Hlast & Hrd & Hin1 & Hin2).
   assert (Hptr : dur_ptr ck (s_fs y) = RdOk d).
@@ -281,8 +281,8 @@ Proof.
     unfold dur_ptr. rewrite (wf_durable_N _ H), HN, <- (wC _ H), Hi, Hsyn.
     rewrite Hdat in Hdat'. rewrite <- Hdat'. apply decode_ptr_bytes. }
   unfold plan_good, plan, in_contract, plan_update, up. rewrite Hd. cbn [fst snd spec_op].
-  set (x := (p_last (s_proc y) + nlen b, apply_batch b (snd (st_mem (f_st (s_fs y) d))))).
-  assert (Hx : (fst (dur_state ck (s_fs y)) + nlen b, apply_batch b (snd (dur_state ck (s_fs y)))) = x).
+  set (x := (p_last (s_proc y) + gp + nlen b, apply_batch b (snd (st_mem (f_st (s_fs y) d))))).
+  assert (Hx : (fst (dur_state ck (s_fs y)) + gp + nlen b, apply_batch b (snd (dur_state ck (s_fs y)))) = x).
   { unfold x. now rewrite Hlast, Hst. }
   rewrite Hx.
   assert (Hds : dur_state ck (fs_batch d true x (s_fs y)) = x).
@@ -709,7 +709,7 @@ Qed.
 (* ------------------------------------------------------------------ events *)
 Lemma plan_good_all y o : WF y -> plan_good y o.
 Proof.
-  intros H. destruct o as [|b| |dlt c|].
+  intros H. destruct o as [|gp b| |dlt c|].
   - now apply plan_good_open.
   - now apply plan_good_update.
   - now apply plan_good_sync.
@@ -808,7 +808,7 @@ Definition hden (h : hist) : sstate := (hist_state h, h_up h).
 Lemma hist_op_den o h : hden (hist_op o h) = spec_op o (hden h).
 Proof.
   unfold hden, hist_op, spec_op, hist_state. destruct h as [snap ups u]. cbn [h_snap h_ups h_up].
-  destruct o as [|b| |dlt c|], u; cbn [h_snap h_ups h_up log_state fold_left]; try reflexivity.
+  destruct o as [|gp b| |dlt c|], u; cbn [h_snap h_ups h_up log_state fold_left]; try reflexivity.
   unfold log_state. rewrite fold_left_app. reflexivity.
 Qed.
 
